@@ -439,10 +439,20 @@ class Terms:
         if depth > MAX_TERM_DEPTH:
             return ("deep", l)
         if b.opaque_local(l) and not (b.is_arg(l) and not b.defs(l)):
-            # address-taken or partially assigned locals are not expanded,
-            # except that a never-reassigned by-value aggregate argument is fine
-            if not (b.is_arg(l) and not b.defs(l)):
-                return ("local", l, b.names.get(l))
+            # address-taken or partially assigned locals are not expanded as
+            # values.  A local with a single whole definition whose address is
+            # taken (an iterator advanced through &mut, ...) is rendered as
+            # ("obj", <initialising term>): "the object created by ..., possibly
+            # mutated since".
+            ds = b.defs(l)
+            if l not in (b._partial or ()) and len(ds) == 1 and not b.is_arg(l):
+                pt, kind, payload = ds[0]
+                key = (l, pt)
+                if key not in visiting:
+                    v2 = visiting | {key}
+                    init = self.rvalue(payload, pt, depth + 1, v2) if kind == "assign" else self.call(payload, pt, depth + 1, v2)
+                    return ("obj", init)
+            return ("local", l, b.names.get(l))
         rds = b.reaching_defs(l, point)
         if not rds:
             return ("local", l, b.names.get(l))
@@ -623,9 +633,11 @@ def term_str(t, names=None):
     if k == "phi":
         return "phi(%s)" % " | ".join(term_str(a, names) for a in t[1])
     if k == "local":
-        return "%s" % (t[2] or ("_%d" % t[1]))
+        return "%s" % ((t[2] if len(t) > 2 else None) or ("_%d" % t[1]))
     if k == "loop":
-        return "loop:%s" % (t[2] or ("_%d" % t[1]))
+        return "loop:%s" % ((t[2] if len(t) > 2 else None) or ("_%d" % t[1]))
+    if k == "obj":
+        return "obj<%s>" % term_str(t[1], names)
     if k == "discr":
         return "discriminant(%s)" % term_str(t[1], names)
     if k in ("field",):
